@@ -448,4 +448,10 @@ theorem gained_counts_nonzero :
     elided.T.isInternalAt [0, 2] = true ∧
     (elided.fams.map fun f => if f.1.isSuffixOf [] then 0 else lineagesAt [0, 2] f.1 f.2).sum = 2 := by decide +kernel
 
+/-- non-vacuity of `C06_lost_count_is_the_history`: evaluated on the two witness datasets (in the second one a lineage at [0, 2] is extinct at [0, 0, 2]) -/
+theorem lost_counts_evaluated :
+    (simpleEx.fams.map fun f => extinctAt [] [1] f.1 f.2).sum = 0 ∧
+    (elided.fams.map fun f => extinctAt [0, 2] [0, 0, 2] f.1 f.2).sum = 1 ∧
+    (elided.fams.map fun f => extinctAt [] [0, 0, 2] f.1 f.2).sum = 0 := by decide +kernel
+
 end Pyham.Witness
